@@ -60,6 +60,23 @@ func (fr *Frame) call(c *ssa.CallCommon, instr ssa.Instruction, st *State, reach
 		fc, cf := vc.prog.lookupIfaceContract(c.Value.Type(), c.Method.Name())
 		sig := c.Method.Type().(*types.Signature)
 		name := typeKey(c.Value.Type()) + "." + c.Method.Name()
+		short := c.Method.Name()
+		fr.calls[short] = fr.callOrd[instr]
+		if fr.fc != nil {
+			for _, ca := range fr.fc.CallAssert {
+				if ca.Callee == short && ca.K == fr.calls[short] {
+					pos := token.NoPos
+					if fr.curInstr != nil {
+						pos = fr.curInstr.Pos()
+					}
+					env := fr.specEnvAt(st, fmt.Sprintf("assert@call %s#%d", short, ca.K), pos)
+					for i := 0; i < sig.Params().Len() && i < len(args); i++ {
+						env.vars["arg_"+sig.Params().At(i).Name()] = args[i]
+					}
+					fr.obligeParts(fmt.Sprintf("call.%s@%d.assert%s", short, ca.K, labelSuffix(ca.C)), "call-assert", reach, env, ca.C)
+				}
+			}
+		}
 		if fc != nil {
 			return fr.applyContract(name, sig, nil, fc, cf, append([]Val{recv}, args...), st, reach, true)
 		}
@@ -84,7 +101,7 @@ func (fr *Frame) call(c *ssa.CallCommon, instr ssa.Instruction, st *State, reach
 	} else if mc, ok := c.Value.(*ssa.MakeClosure); ok {
 		bindings = vc.closures[mc]
 	}
-	return fr.callStatic(callee, bindings, args, st, reach)
+	return fr.callStatic(callee, bindings, args, st, reach, instr)
 }
 
 func (fr *Frame) resolveFuncValue(v ssa.Value, st *State) (*ssa.Function, []Val) {
@@ -123,13 +140,16 @@ func (fr *Frame) resolveFuncValue(v ssa.Value, st *State) (*ssa.Function, []Val)
 	return nil, nil
 }
 
-func (fr *Frame) callStatic(callee *ssa.Function, bindings []Val, args []Val, st *State, reach Term) Val {
+func (fr *Frame) callStatic(callee *ssa.Function, bindings []Val, args []Val, st *State, reach Term, instr ssa.Instruction) Val {
 	vc := fr.vc
 	fc, cf := vc.prog.lookupContract(callee)
 	name := funcKeyQualified(callee)
 	short := callee.Name()
-	fr.calls[short]++
-	k := fr.calls[short]
+	k := fr.callOrd[instr]
+	if k == 0 {
+		fr.calls[short]++
+		k = 100 + fr.calls[short]
+	}
 	// caller-side assertions at this call site
 	if fr.fc != nil {
 		for _, ca := range fr.fc.CallAssert {
@@ -144,7 +164,7 @@ func (fr *Frame) callStatic(callee *ssa.Function, bindings []Val, args []Val, st
 						env.vars["arg_"+p.Name()] = args[i]
 					}
 				}
-				fr.obligeNamed(fmt.Sprintf("call.%s@%d.assert", short, k), "call-assert", reach, env.Bool(ca.C.Expr), ca.C.Src, ca.C.Line)
+				fr.obligeParts(fmt.Sprintf("call.%s@%d.assert%s", short, k, labelSuffix(ca.C)), "call-assert", reach, env, ca.C)
 			}
 		}
 	}
@@ -747,4 +767,12 @@ func (fr *Frame) copyBuiltin(c *ssa.CallCommon, args []Val, st *State, reach Ter
 		vc.heapSet(st, key, nv)
 	}
 	return scalar(types.Typ[types.Int], n)
+}
+
+
+func labelSuffix(c Clause) string {
+	if c.Name != "" {
+		return "." + c.Name
+	}
+	return fmt.Sprintf(".L%d", c.Line)
 }
